@@ -57,10 +57,20 @@ def _builder(ctx, rep, cm, f):
     # the loop over candidates
     loops = [n for n in ast.walk(f) if isinstance(n, ast.For) and isinstance(n.iter, ast.Call)
              and e1.callee_name(n.iter.func) == "ctparse_gen"]
+    enum_target = None
+    if not loops:
+        # for i, parse in enumerate(ctparse_gen(...)[, start]):
+        for n in ast.walk(f):
+            if isinstance(n, ast.For) and isinstance(n.iter, ast.Call) and e1.callee_name(n.iter.func) == "enumerate" \
+                    and n.iter.args and isinstance(n.iter.args[0], ast.Call) \
+                    and e1.callee_name(n.iter.args[0].func) == "ctparse_gen" \
+                    and isinstance(n.target, ast.Tuple) and len(n.target.elts) == 2:
+                loops.append(n)
+                enum_target = n.target.elts[1]
     if not loops:
         raise AnalysisError("anchor vanished: candidate loop in " + f.name)
     loop = loops[0]
-    pv = norm(loop.target)
+    pv = norm(enum_target if enum_target is not None else loop.target)
     # label assignment
     label = None
     for a in ast.walk(loop):
